@@ -760,7 +760,8 @@ pub fn gen_c07(tier: Tier, run: u64, rng: &mut Rng) -> BuilderCase {
         c.n = if slot == 3 { rng.urange(29_600, 60_000) } else { rng.urange(116_000, 135_000) };
         c.key_kind = rng.pick(&["range", "scatter"]).to_string();
         c.threads = *rng.pick(&[1usize, 1, 2, 3, 8]);
-        c.sched.iters = if c.sched.kind == "pct" { 2 } else { 1 };
+        // several schedules per multi-shard case: these are the cases in which producer, workers and main really interleave
+        c.sched.iters = if slot == 3 { 4 } else { 2 };
         let (h, k) = match rng.below(3) {
             0 => (None, "absent".to_string()),
             1 => (Some(c.n), "exact".to_string()),
